@@ -125,5 +125,33 @@ func Shuffle(n int, swap func(i, j int)) {
 type Rand = rand.Rand
 type Source = rand.Source
 
-func New(src rand.Source) *rand.Rand    { return rand.New(src) }
+// New wraps the source: while a Script is installed every Int63 drawn from the generator is a scripted
+// answer (raw value, default 0, arity recorded as 0 = unknown), so r.Int63n(n) yields answer % n for small
+// answers; without a script the generator behaves exactly like rand.New(src).
+func New(src rand.Source) *rand.Rand { return rand.New(&seamSource{inner: src}) }
+
+type seamSource struct{ inner rand.Source }
+
+func (s *seamSource) Int63() int64 {
+	mu.Lock()
+	sc := script
+	if sc != nil {
+		i := len(sc.Arity)
+		sc.Arity = append(sc.Arity, 0)
+		a := 0
+		if i < len(sc.Answers) {
+			a = sc.Answers[i]
+		}
+		mu.Unlock()
+		if a < 0 {
+			a = 0
+		}
+		return int64(a)
+	}
+	mu.Unlock()
+	return s.inner.Int63()
+}
+
+func (s *seamSource) Seed(seed int64) { s.inner.Seed(seed) }
+
 func NewSource(seed int64) rand.Source { return rand.NewSource(seed) }
